@@ -17,6 +17,34 @@ def run(ctx):
         return
     ctx.regen("all")
     okp, log = ctx.prove("props/C13.v", "C13")
+    # which findings may share a diagnostic: corpus/c13 tags every dereference with its nil source (//G<n>)
+    import os
+    import re
+    cd = os.path.join(common.VERIF, "corpus", "c13")
+    tags = {}
+    for i, l in enumerate(open(os.path.join(cd, "a", "a.go")).read().splitlines(), 1):
+        m = re.search(r"//(G\d+)\b", l)
+        if m:
+            tags[i] = m.group(1)
+    gbad = []
+    ru, e1 = wt.analyze(cd, flags={"group-error-messages": "false"})
+    rg, e2 = wt.analyze(cd, flags={"group-error-messages": "true"})
+    if ru is None or rg is None:
+        gbad.append("run failed: %s %s" % (e1, e2))
+    else:
+        ulines = sorted(d["line"] for d in ru["diags"] or [])
+        seen = []
+        for d in rg["diags"] or []:
+            ls = [d["line"]] + [int(x) for x in re.findall(r"a\.go:(\d+):\d+\"", (re.findall(r"other place\(s\): (.*)\.\)", d["message"]) or [""])[0])]
+            seen += ls
+            ts = set(tags.get(x, "untagged:%d" % x) for x in ls)
+            if len(ts) > 1:
+                gbad.append("the diagnostic at a/a.go:%d groups lines %s whose nil sources differ (%s)" % (d["line"], ls, sorted(ts)))
+        if sorted(seen) != ulines:
+            gbad.append("locations reported with grouping off %s, with grouping on (positions and lists) %s" % (ulines, sorted(seen)))
+    ctx.obligation("whole tool on corpus/c13 (%d tagged dereferences: same-named methods / functions with same-named locals, interleaved sources): every ungrouped location appears once, only findings with the same nil source share a diagnostic" % len(tags), bool(tags) and not gbad)
+    for b in gbad[:2]:
+        ctx.violation("grouping", "C13 fails on the real tool: %s\nreplay: bin/harness analyze -dir corpus/c13 [-flag group-error-messages=false]\n" % b)
     n = 3000 if ctx.tier == "quick" else 80000
     res = ds.correspond(ctx, n)
     ctx.obligation("correspondence suite ran", not res["errors"])
